@@ -996,6 +996,32 @@ def make_case(rng, kind, **kw):
             n += 1
             ptx.append(conv.jscaffold(f"Scaffold_{n}", [conv.jfrag(0, s_["name"], 1, math.floor(T * beta), 1, ["Painted"] if kind == "nulltightp" else [])]))
         return {"kind": "nullp" if kind == "nulltightp" else "null", "input": inp, "ptx": ptx, "bpt": bpt}
+    if kind == "homtag":
+        # multi-haplotype map in which the homologues of one chromosome carry the SAME name tag (X in Hap1 and X in Hap2 — by design)
+        # and each holds a piece tagged FalseDuplicate / Contaminant (a second contig of the scaffold)
+        haps = rng.choice([["Hap1", "Hap2"], ["Hap2", "Hap1"], ["Mat", "Pat"]])
+        beta = Fraction(bpt)
+        unit = max(40, math.ceil(beta) * 8)
+        inp, ptx, oid = [], [], 0
+        for g in range(rng.randint(1, 3)):
+            nametag = rng.choice([None, "X", "Z", "B1"]) if g == 0 else rng.choice([None, None, "W"])
+            special = rng.choice(["FalseDuplicate", "Contaminant", None]) if nametag else rng.choice([None, "FalseDuplicate"])
+            for h in haps:
+                n = len(inp) + 1
+                l1 = unit * rng.randint(2, 9) + rng.randint(0, 5)
+                l2 = unit * rng.randint(1, 2)
+                rows = [conv.jfrag(oid, f"c{oid+1}", 1, l1, rng.choice([1, -1])), conv.jgap(200), conv.jfrag(oid + 1, f"c{oid+2}", 1, l2, 1)]; oid += 2
+                inp.append(conv.jscaffold(f"s{n}", rows))
+                T1 = math.floor((l1 + 100) / beta)
+                cut = math.floor(T1 * beta)
+                L = slen(rows); T = math.floor(L / beta)
+                end = math.floor(T * beta)
+                tags = ["Painted", h] + ([nametag] if nametag else [])
+                pieces = [conv.jfrag(0, f"s{n}", 1, cut, rng.choice([1, -1]), list(tags))]
+                if end > cut:
+                    pieces += [conv.jgap(100), conv.jfrag(0, f"s{n}", cut + 1, end, 1, ["Painted"] + ([special] if special else []))]
+                ptx.append(conv.jscaffold(f"Scaffold_{n}", pieces))
+        return {"kind": "tagged2", "input": inp, "ptx": ptx, "bpt": bpt}
     if kind == "hole":
         # NOT a PretextView map: two pieces that both reach a little way (< error length) into a small contig from either side and
         # leave a stretch of it covered by neither (pieces do not abut).  Both overhangs <= error length, so nothing is trimmed at
